@@ -60,6 +60,15 @@ func spec(sc scen, sid string) (*sess.Spec, error) {
 				}
 				return vproto.Start2(R, id == "a", id, other)
 			}}, nil
+	case sc.Proto == "vproto2b":
+		return &sess.Spec{Name: sc.Proto, IDs: pids[:2], Two: true, Leader: map[party.ID]bool{"a": true}, SessionID: []byte(sid),
+			Start: func(id party.ID) protocol.StartFunc {
+				other := party.ID("b")
+				if id == "b" {
+					other = "a"
+				}
+				return vproto.Start2B(id == "a", id, other)
+			}}, nil
 	case sc.Proto == "xor":
 		return &sess.Spec{Name: "xor", IDs: pids, SessionID: []byte(sid), Start: func(id party.ID) protocol.StartFunc {
 			return example.StartXOR(id, party.NewIDSlice(pids))
@@ -243,6 +252,7 @@ func scenarios() []scen {
 	add("vproto:BB", 3, 7, 0, "full") // the same over two message rounds
 	add("vproto2:3", 2, 2, 1, "full")
 	add("vproto2:4", 2, 2, 1, "full")
+	add("vproto2b", 2, 2, 1, "full") // two messages of one sender in flight: the later may overtake the earlier
 	add("doerner-keygen", 2, 1, 1, "full")
 	add("doerner-sign", 2, 1, 1, "full")
 	add("frost-keygen", 3, 0, 0, "full")
